@@ -1,9 +1,13 @@
 package server
 
 import (
+	"encoding/json"
 	"io/fs"
+	"os"
 	"runtime"
+	"strconv"
 	"testing"
+	"time"
 
 	"github.com/basecamp/kamal-proxy/internal/pages"
 )
@@ -20,8 +24,29 @@ func TestVerifSim(t *testing.T) {
 	// One P: goroutines interleave only where they block (or at armed yields),
 	// so every lock region of the code is one atomic step of the recorded trace.
 	defer runtime.GOMAXPROCS(runtime.GOMAXPROCS(1))
+	// Watchdog in REAL time: a scenario normally takes a fraction of a second.  One that does not end - goroutines of the
+	// bubble blocked on a lock (the virtual clock cannot advance), or goroutines that never stop - is reported with its
+	// index and the stacks of all goroutines in VERIF_OUT + ".hang"; the run is abandoned.
+	limit := 120 * time.Second
+	if v, err := strconv.Atoi(os.Getenv("VERIF_HANG_S")); err == nil && v > 0 {
+		limit = time.Duration(v) * time.Second
+	}
 	for i, sc := range cases {
+		done := make(chan struct{})
+		go func(i int) {
+			select {
+			case <-done:
+			case <-time.After(limit):
+				buf := make([]byte, 1<<20)
+				buf = buf[:runtime.Stack(buf, true)]
+				b, _ := json.Marshal(map[string]any{"i": i, "hung": true, "limit_s": int(limit / time.Second), "stacks": string(buf)})
+				os.WriteFile(os.Getenv("VERIF_OUT")+".hang", b, 0o644)
+				out.close()
+				os.Exit(3)
+			}
+		}(i)
 		res := vRunScenario(t, sc)
+		close(done)
 		res["i"] = i
 		out.emit(res)
 	}
